@@ -892,7 +892,12 @@ func simpleChecksum(data []byte) []byte {
 }
 
 func (dsc *dataStoreCommand) dump(keyName string) (output respValue) {
-	sk, exists := dsc.getKeyObject(keyName)
+	// the payload is read (and copied) below: keep the lock until that is done, a
+	// string can be modified in place (SETBIT, BITFIELD, SETRANGE) by another client
+	dsc.lock()
+	defer dsc.unlock()
+
+	sk, exists := dsc.getKeyObjectUnlocked(keyName)
 	if !exists {
 		return
 	}
